@@ -152,7 +152,7 @@ def gen_all(ctx):
     scs = corpus_scenarios("C06")
     for _ in range(ctx.scale(24, 200)):
         scs.append(S.gen_scenario(rng, "periodogram_csd", nmax=32 if q else 96, max_ch=5 if q else 6))
-    for _ in range(ctx.scale(10, 120)):
+    for _ in range(ctx.scale(8, 120)):
         scs.append(S.gen_scenario(rng, "multi_taper_csd", nmax=20 if q else 48,
                                   max_ch=rng.choice([2, 3, 3, 4]) if q else rng.choice([3, 4, 5, 6])))
     for _ in range(ctx.scale(16, 120)):
@@ -163,6 +163,11 @@ def gen_all(ctx):
         scs.append(S.force_bw_nfft(rng, S.gen_scenario(rng, "multi_taper_csd", nmax=16 if q else 32, max_ch=2 if q else 4)))
     for _ in range(ctx.scale(2, 12)):
         scs.append(S.force_few_tapers(rng, S.gen_scenario(rng, "multi_taper_csd", nmax=16 if q else 32, max_ch=2 if q else 4)))
+    # the NFFT-vs-N parity matrix (N even / odd x NFFT in {None, N, N+1, N+2, 2N, 2N+1})
+    ne, no = (10, 9) if q else (rng.choice([16, 32]), rng.choice([15, 31]))
+    for est in ("multi_taper_csd", "periodogram_csd"):
+        scs += S.gen_parity_matrix(rng, est, ne if est.startswith("multi") else ne - 2,
+                                   no if est.startswith("multi") else no - 2, M=2, per_cell=1 if q else 2)
     # Fortran-ordered / strided / transposed-view inputs with two or more leading dimensions > 1
     for _ in range(ctx.scale(6, 40)):
         est = rng.choice(["multi_taper_csd", "multi_taper_csd", "periodogram_csd"])
